@@ -122,3 +122,20 @@ PROPS["C12"] = dict(
     assumptions=["rename atomic", "faults are injected one at a time"],
     drivers=[drivers.c12_driver],
 )
+
+PROPS["C11"] = dict(
+    no_harness=True,
+    rule=("~100 (quick) / ~410 (thorough) entry names from a grammar of '..', '.', empty, long, unicode, 'C:', reserved-looking "
+          "components joined by '\\\\', '/', doubled separators, with prefixes '', '\\\\', '/', 'C:\\\\', 'C:', '\\\\\\\\?\\\\', '..\\\\', plus "
+          "absolute names pointing into the sandbox and classic traversal names; two archives (base + patch) built with "
+          "those names and a generated listfile; the freshly built warcraft-rs binary extracts into a 5-level-deep sandbox "
+          "for preserve-paths x patch-chain x explicit-names x skip-errors; a recursive snapshot (size, mtime, sha1) before "
+          "and after decides whether anything outside the output directory changed; the set of files written is compared "
+          "with the Lean model's prediction per name. evaluations = names x runs; non-trivial = a run that wrote nothing outside"),
+    trusted_base=COMMON_TB + [
+        "lexical containment only: symlinks inside the output directory, case-insensitive file systems and Windows path "
+        "semantics are not modelled", "std::path::Path::components / file_name / PathBuf::push on Unix as modelled in "
+        "Model.C11Path (validated by the differential run)"],
+    assumptions=["Unix path semantics", "no pre-existing symlinks under the output directory"],
+    drivers=[drivers.c11_driver],
+)
